@@ -12,6 +12,7 @@ def run(run):
     skeleton.apply(run, 'C16')
     runner.load_contracts()
     components.ast_functions(run, FUNCS, run.tier, rt_quick=25, rt_thorough=150)
+    run.assume('PEP.solve: importlib.util.find_spec and str.lower are uninterpreted functions (package_found, str_lower); the wrapper table WRAPPERS has the keys cvxpy and mosek (precondition known_backend)')
     hc.solve_scenarios(run, 'C16', [('no_value', (run.seed + i,)) for i in range(4 if run.tier == 'quick' else 20)] + [('invalid_options', (run.seed,))] +
                        [('resolve_none', (run.seed + i,)) for i in range(2)],
                        'rt-solve-no-value', 'unbounded and infeasible models solved in both return modes with two solvers: solve returns None and every accessor '
